@@ -40,7 +40,7 @@ RULE = (
     'sizes 1..n (40% of the contexts sample every stratum completely), 1-60 individuals (int or float choice column, default or '
     'arbitrary index), 0-2 combined variables and a 2-4 term utility given as ASTs, optional second partition (over all or part '
     'of the alternatives), nested / cross-nested structures; plus 7 fixed directed contexts. Each context is merged 3 (quick) / '
-    '6 (thorough) times and sampled directly 15 / 30 times with different RNG states. non-trivial = a database returned by '
+    '5 (thorough) times and sampled directly 15 / 30 times with different RNG states. non-trivial = a database returned by '
     'sample_and_merge was judged row by row; distinct = hash of (specification, matrix of sampled ids)'
 )
 ASSUMPTIONS = [
@@ -52,11 +52,11 @@ ASSUMPTIONS = [
     'a context whose partial second sample leaves a nest of a listed alternative empty has log(0) in its formula: not judged (counted)',
     'attributes, ids, corrections and weights are compared exactly (corrections at 1e-12); combined variables at rtol 1e-12',
 ]
-MIN_DISTINCT = {'quick': 450, 'thorough': 4000}
-CASE_TIMEOUT = 300
+MIN_DISTINCT = {'quick': 450, 'thorough': 2500}
+CASE_TIMEOUT = 900
 
-N_RANDOM = {'quick': 220, 'thorough': 1200}
-N_MERGE = {'quick': 3, 'thorough': 6}
+N_RANDOM = {'quick': 220, 'thorough': 800}
+N_MERGE = {'quick': 3, 'thorough': 5}
 N_LL = {'quick': 2, 'thorough': 3}
 N_DIRECT = {'quick': 15, 'thorough': 30}
 
@@ -500,7 +500,8 @@ def run_case(case):
         builders['cnl'] = modelgen.get_cross_nested_logit
     seen_sets = set()
     last = None
-    for r in range(N_MERGE[tier]):
+    n_merge = N_MERGE[tier] if m.n_ind * (m.total + m.mtotal) <= 500 else min(3, N_MERGE[tier])  # bound the cost of the largest contexts
+    for r in range(n_merge):
         np.random.seed((rng_base + 7 * r) % (2 ** 32 - 1))
         ct.reset()
         where = f'{tag} merge {r}'
